@@ -188,6 +188,7 @@ func c02RunImpl(cfg c02Cfg, blocks [][][]byte) *c02ImplRun {
 		return r
 	}
 	for bi, blk := range blocks {
+		fed := 0
 		for _, chunk := range blk {
 			p := c02Exact(chunk)
 			n, err := d.Write(p)
@@ -195,6 +196,14 @@ func c02RunImpl(cfg c02Cfg, blocks [][][]byte) *c02ImplRun {
 				p[i] = 0xaa
 			}
 			inv("after Write")
+			fed += len(chunk)
+			if d.saveBuf.Len() > fed {
+				// saveBuf holds an unparsed suffix of this block; anything larger
+				// is runaway growth (stop before it exhausts memory)
+				bad("savebuf-larger-than-block", "after %d bytes of the block saveBuf holds %d bytes", fed, d.saveBuf.Len())
+				r.Err, r.ErrAt, r.ErrBlk = fmt.Errorf("harness: stopped feeding"), "write", bi
+				return finish()
+			}
 			if err != nil {
 				r.Err, r.ErrAt, r.ErrBlk = err, "write", bi
 				return finish()
@@ -231,6 +240,8 @@ type c02RefRun struct {
 	Reprs   int
 	Table   []c02RefField
 	MaxSize uint64
+	// Per holds the verdict of every block the reference looked at.
+	Per []c02RefBlock
 }
 
 func c02RunRef(cfg c02Cfg, blocks [][]byte) *c02RefRun {
@@ -243,6 +254,7 @@ func c02RunRef(cfg c02Cfg, blocks [][]byte) *c02RefRun {
 	out := &c02RefRun{Status: c02StOK}
 	for _, b := range blocks {
 		res := rd.Block(b)
+		out.Per = append(out.Per, res)
 		out.Fields = append(out.Fields, res.Fields...)
 		out.LongInt = out.LongInt || res.LongInt
 		out.Huff = out.Huff || res.Huff
